@@ -145,6 +145,7 @@ def ap_check_tx_validity():
             C("unlocked", "res is Ok && !lock_legacy(this.network, this.height) ==> forall|i: int| 0 <= i < tx.inputs@.len() ==> !new_stakes@.contains_key((#[trigger] tx.inputs@[i]).txhash) && !this.stakes@.contains_key(tx.inputs@[i].txhash)", "C13"),
             C("approved", "res is Ok ==> forall|i: int| 0 <= i < tx.inputs@.len() ==> script_approves(spec_covenants_map(*tx), relevant_coins@[tx.inputs@[i]].coin_data.covhash, *tx, #[trigger] env_of(*tx, relevant_coins@, i, spec_last_header(*this)))", "C04"),
             C("balanced", "res is Ok ==> balanced(tx.kind, in_sums(tx.inputs@, relevant_coins@, tx.inputs@.len() as int), spec_total_outputs(*tx))", "C01", "C02"),
+            C("errkind", "res is Err ==> !(res->Err_0 is WrongHeader)", "C06", char=True),
             C("locked_err", "(exists|i: int| 0 <= i < tx.inputs@.len() && (new_stakes@.contains_key((#[trigger] tx.inputs@[i]).txhash) || this.stakes@.contains_key(tx.inputs@[i].txhash))) && !lock_legacy(this.network, this.height) ==> res is Err", "C13"),
         ])
 
@@ -284,6 +285,8 @@ def ap_create_next_state():
         C("wf", "res is Ok ==> res->Ok_0.coins.wf() && origin_ok(res->Ok_0.coins@.coins)", "C20"),
         C("counts", "res is Ok && is_tip_906 ==> counts_ok(res->Ok_0.coins@)", "C20"),
         C("counts_frame", "res is Ok && !is_tip_906 ==> res->Ok_0.coins@.counts == next_state.coins@.counts", "C20"),
+        C("fee_total", "res is Ok ==> res->Ok_0.fee_pool.0 + res->Ok_0.tips.0 == next_state.fee_pool.0 + next_state.tips.0 + fsum(transactions@, fee_of())", "C05", "C01"),
+        C("errkind", "res is Err ==> !(res->Err_0 is WrongHeader)", "C06", char=True),
     ])
 
 def ap_load_relevant_coins():
